@@ -21,6 +21,56 @@ theorem argmax_is_first_max (l : List ℚ) (hne : l ≠ []) :
       (∀ j (hj : j < l.length), j < argmaxFirst l → l[j] < l[argmaxFirst l]) :=
   argmaxFirst_spec l hne
 
+/-- **C03 at the model level: the reported height is the maximum of the map over the window, the
+reported centre is inside the window, attains the maximum, and is the first such position in
+row-major order** — for every map and every size. -/
+theorem evaluate_center_is_max (corr : ℤ → ℤ → ℚ) (n m : ℕ) (hn : 0 < n) (hm : 0 < m) :
+    let e := evaluate corr n m
+    (0 ≤ e.cy ∧ e.cy < n) ∧ (0 ≤ e.cx ∧ e.cx < m) ∧ e.height = corr e.cy e.cx ∧
+    (∀ y x : ℕ, y < n → x < m → corr y x ≤ e.height) ∧
+    (∀ y x : ℕ, y < n → x < m → ((y * m + x : ℕ) : ℤ) < e.cy * m + e.cx → corr y x < e.height) := by
+  have hne := flat_ne_nil corr n m hn hm
+  obtain ⟨hr, hmax, hfirst⟩ := argmaxFirst_spec (flat corr n m) hne
+  set a := argmaxFirst (flat corr n m) with ha
+  have halt : a < n * m := by rw [flat_length] at hr; exact hr
+  have hcy : ((a : ℤ) / (m : ℤ)) = ((a / m : ℕ) : ℤ) := by norm_cast
+  have hcx : ((a : ℤ) % (m : ℤ)) = ((a % m : ℕ) : ℤ) := by norm_cast
+  have hdiv : a / m < n := Nat.div_lt_of_lt_mul (by rw [Nat.mul_comm]; exact halt)
+  have hmod : a % m < m := Nat.mod_lt _ hm
+  have hval : (flat corr n m)[a] = corr ((a / m : ℕ) : ℤ) ((a % m : ℕ) : ℤ) := flat_getElem corr n m a halt
+  have ecy : (evaluate corr n m).cy = ((a / m : ℕ) : ℤ) := by
+    show ((argmaxFirst (flat corr n m) : ℕ) : ℤ) / (m : ℤ) = _
+    rw [← ha, hcy]
+  have ecx : (evaluate corr n m).cx = ((a % m : ℕ) : ℤ) := by
+    show ((argmaxFirst (flat corr n m) : ℕ) : ℤ) % (m : ℤ) = _
+    rw [← ha, hcx]
+  have eh : (evaluate corr n m).height = corr (evaluate corr n m).cy (evaluate corr n m).cx := rfl
+  have hval' : (evaluate corr n m).height = (flat corr n m)[a] := by rw [eh, ecy, ecx, hval]
+  show (0 ≤ (evaluate corr n m).cy ∧ (evaluate corr n m).cy < n) ∧ (0 ≤ (evaluate corr n m).cx ∧ (evaluate corr n m).cx < m) ∧
+    (evaluate corr n m).height = corr (evaluate corr n m).cy (evaluate corr n m).cx ∧
+    (∀ y x : ℕ, y < n → x < m → corr y x ≤ (evaluate corr n m).height) ∧
+    (∀ y x : ℕ, y < n → x < m → ((y * m + x : ℕ) : ℤ) < (evaluate corr n m).cy * m + (evaluate corr n m).cx →
+      corr y x < (evaluate corr n m).height)
+  refine ⟨⟨by rw [ecy]; exact Int.natCast_nonneg _, by rw [ecy]; exact_mod_cast hdiv⟩,
+    ⟨by rw [ecx]; exact Int.natCast_nonneg _, by rw [ecx]; exact_mod_cast hmod⟩,
+    eh, ?_, ?_⟩
+  · intro y x hy hx
+    obtain ⟨hj, hv⟩ := flat_at corr n m y x hy hx
+    rw [← hv, hval']
+    exact hmax _ hj
+  · intro y x hy hx hlt
+    obtain ⟨hj, hv⟩ := flat_at corr n m y x hy hx
+    rw [← hv, hval']
+    apply hfirst _ hj
+    rw [ecy, ecx] at hlt
+    have h2 : m * (a / m) + a % m = a := Nat.div_add_mod a m
+    have h3 : ((a / m : ℕ) : ℤ) * m + ((a % m : ℕ) : ℤ) = (a : ℤ) := by
+      have : ((m * (a / m) + a % m : ℕ) : ℤ) = (a : ℤ) := by rw [h2]
+      simp only [Nat.cast_add, Nat.cast_mul] at this
+      linarith [mul_comm ((m : ℕ) : ℤ) (((a / m : ℕ)) : ℤ)]
+    rw [h3] at hlt
+    exact_mod_cast hlt
+
 /-- the constants of the evaluation, as the source has them now -/
 theorem constants :
     Gen.refine_radius = 2 ∧ Gen.elev_rmin = 3 / 2 ∧ Gen.elev_rmax_is_inf = true ∧
